@@ -297,10 +297,20 @@ func (c *Cluster) stopRemoved() {
 		return
 	}
 	cs := ref.RN.VerifConfState()
+	// a node that was stopped as removed and has been added back to the committed configuration runs again
+	for _, id := range c.IDs {
+		if n := c.Nodes[id]; n.Removed && !n.Alive && n.Panic == "" && (inConf(id, cs) || containsID(cs.GetLearnersNext(), id)) {
+			n.Removed = false
+			c.restart(n)
+		}
+	}
 	for _, n := range c.alive() {
 		if !inConf(n.ID, cs) && !containsID(cs.GetLearnersNext(), n.ID) {
 			c.trace("stop removed node %d", n.ID)
 			c.Mon.onCrash(n)
+			if c.Spec != nil {
+				c.Spec.onCrash(n)
+			}
 			n.Crash()
 			n.Removed = true
 		}
